@@ -10,6 +10,26 @@ CLAIMED = {
    note="Trusted: reference multiset, filter functions, porcupine. Pop is single-consumer by contract. Interleaving granularity = blocking points (channel ops are atomic). Fake clock via testing/synctest (go1.26.8)."),
 }
 
+Q = "deterministic simulation: seeded delivery/timeout/Byzantine schedules over real controllers+instances; "
+CLAIMED.update({
+ "C01": dict(engine="qbftsim", cat="exploration", ref="DESIGN.md §3 C01",
+   technique=Q + "invariant (all reported decisions equal) checked after every step; delta-debugged replay files",
+   text="Multi-operator (N=4/7/10/13) simulation of the real QBFT controller and instance with up to f Byzantine puppets drawn from the message grammar (equivocation, selective delivery, stale/forged justifications), arbitrary delivery order, duplication, loss and timeouts at any moment; agreement of every reported decision is checked after every step. Seeded sampling with directed attack scripts, not exhaustive.",
+   note="Trusted: simulator transport/timer/store stubs, BLS library, assumption <= f Byzantine. Caught 2/2 independently seeded safety breaks and 2 planted ones; 2 planted 'star' mutants turned out to be masked by redundant checks in the code (see DESIGN.md §9)."),
+ "C02": dict(engine="qbftsim", cat="exploration", ref="DESIGN.md §3 C02",
+   technique=Q + "independent BLS certificate verifier applied to every reported decision and every stored instance; forged decided messages from a grammar",
+   text="Same simulation with 45% forged Byzantine messages (bad aggregate, foreign/zero/duplicate signers, sub-quorum padded lists, root/height/identifier mismatch). Every decision returned by Controller.ProcessMsg and every instance handed to the store is re-verified by an independent certificate verifier (herumi FastAggregateVerify + spec signing root); local decisions additionally need the operator's own value check and a proposal by the round-robin leader.",
+   note="Trusted: independent verifier, ssv-spec ComputeSigningRoot, herumi BLS. Runner-level saves are covered by runnersim when built."),
+ "C06": dict(engine="qbftsim", cat="exploration", ref="DESIGN.md §3 C06",
+   technique=Q + "lock-step refinement against the pinned ssv-spec reference instance after every event (errors, broadcast bytes, decision, timers, state root)",
+   text="Every honest operator is a (node instance, ssv-spec reference instance) pair fed identical starts, deliveries, timeouts, Byzantine grammar messages and single-field mutations; all outputs and the protocol state are compared after each event, with and without the node's compaction applied where the runner applies it. Two known findings (compaction of decided instances changes later broadcasts) are listed in known_findings.json.",
+   note="Trusted: ssv-spec v0.3.7 instance as the reference; compaction points modelled = after every round-change message. After a known-class divergence on one operator that pair is no longer compared (others are)."),
+ "C07": dict(engine="qbftsim", cat="exploration", ref="DESIGN.md §3 C07",
+   technique=Q + "bounded liveness: adversarial prefix, then faults stop and up to 18 synchronous continuations are searched; timeout post-conditions checked at every timeout",
+   text="After an adversarial prefix (<= f silent or equivocating operators, arbitrary deliveries and timeouts) faults stop and all correct operators must decide within f+3 timeout rounds in at least one of 18 synchronous continuations (9 delivery orders x 2 timeout policies); fault-free in-order runs must decide in round 1 on the leader's value; every timeout must bump the round, clear the proposal, re-arm the timer and announce the round.",
+   note="Existential oracle over 18 continuations only; calibrated clean on the unchanged tree. Partial synchrony: loss among correct operators in the prefix = delay."),
+})
+
 NOT_YET = {}
 ALL = ["C%02d" % i for i in range(1, 19)]
 NA = {
